@@ -373,6 +373,9 @@ pub fn gen_layers(src: &mut Src, share_numbers: bool) -> Vec<RLayer> {
         if src.bool() {
             add(src, RPurpose::Obstruction, &mut purposes);
         }
+        if src.prob(1, 4) {
+            add(src, RPurpose::Outline, &mut purposes);
+        }
         if src.prob(1, 3) {
             add(src, RPurpose::Other, &mut purposes);
         }
@@ -526,6 +529,46 @@ pub fn gen_rawlib(src: &mut Src, o: &RawGenOpts) -> RLib {
     src.shuffle(&mut listing);
     let units = src.below(if o.pico { 4 } else { 3 }) as u8;
     RLib { name: src.pick(&["lib", "My Lib", "l"]).to_string(), units, layers, cells, listing }
+}
+
+/// Deep hierarchies: a chain of 30-200 cells, each instantiating the one below (and, now and then, a leaf the
+/// one below instantiates as well), listed top-down, bottom-up or shuffled, on top of a small generated
+/// library. Returns the library and a label (depth class, listing).
+pub fn gen_deep(src: &mut Src, base_opts: &RawGenOpts) -> (RLib, String) {
+    let mut m = gen_rawlib(src, &RawGenOpts { max_cells: 2, ..base_opts.clone() });
+    let base = m.cells.len();
+    let depth = *src.pick(&[30usize, 31, 32, 33, 34, 35, 48, 63, 64, 65, 66, 100, 127, 128, 129, 130, 200]);
+    let template: Vec<RShape> = m.cells.iter().find(|c| c.has_layout && !c.shapes.is_empty()).map(|c| vec![c.shapes[0].clone()]).unwrap_or_default();
+    let leaf: Option<usize> = (0..base).find(|i| m.cells[*i].has_layout);
+    for d in 0..depth {
+        let lower: Option<usize> = if d > 0 { Some(base + d - 1) } else { leaf };
+        let mut insts: Vec<RInst> = lower.map(|t| vec![RInst { name: "i0".into(), target: t, loc: (src.signed(500), src.signed(500)), o: Orient::from_index(src.index(8)), none_angle: src.bool() }]).unwrap_or_default();
+        // a shared leaf: named by this level after the level below, which may name it too
+        if let (Some(l), true) = (leaf, d > 0 && src.prob(1, 3)) {
+            let i = RInst { name: "shared".into(), target: l, loc: (src.signed(500), src.signed(500)), o: Orient::from_index(src.index(8)), none_angle: src.bool() };
+            if src.prob(1, 4) {
+                insts.insert(0, i);
+            } else {
+                insts.push(i);
+            }
+        }
+        m.cells.push(RCell { name: format!("level_{}", d), has_layout: true, shapes: if d % 7 == 0 { template.clone() } else { vec![] }, insts, annotations: vec![], abs: None });
+    }
+    let mut chain: Vec<usize> = (base..base + depth).collect();
+    let how = src.below(3);
+    match how {
+        0 => chain.reverse(), // top-down
+        1 => {}               // bottom-up
+        _ => src.shuffle(&mut chain),
+    }
+    if src.bool() {
+        m.listing.extend(chain);
+    } else {
+        chain.extend(m.listing.clone());
+        m.listing = chain;
+    }
+    let label = format!("chain of {} cells listed {}", if depth <= 32 { "<= 32" } else if depth <= 64 { "33-64" } else { "> 64" }, ["top-down", "bottom-up", "shuffled"][how as usize]);
+    (m, label)
 }
 
 pub struct Built {
